@@ -13,7 +13,9 @@ EXPLANATION = (
     "the toposort's visit_dependent_rule_ids) descend into every operator that evaluates a sub-rule on the same node or a "
     "sibling set containing it, and every Transformation variant reports its source variable to the sorter; "
     "R4 every construction of a rule's fix template receives the transformation names on every path where they exist; "
-    "R5 template-side and pattern-side variable recognisers share one character class."
+    "R5 template-side and pattern-side variable recognisers share one character class. R6 (converse clause) a sub-rule whose variables "
+    "defined_vars() declares is never evaluated through the env-less find/matches API — such variables are accepted in fix/transform/"
+    "constraints but can never be captured."
 )
 NOT_DECIDED = (
     "That Pattern::defined_vars equals the variables actually bound at run time; the converse clause 'every variable "
